@@ -207,6 +207,8 @@ def spec_nfa_substrings(pats, sy, must_be_suffix):
         trans[1] = {a + 1: {1} for a in syms}
         finals.add(1)
     for p in sorted(pats):
+        if any(sy(ch) >= sy.n for ch in p):
+            continue               # a pattern with a symbol outside the alphabet never occurs in a word over the alphabet
         cur = 0
         if p == "":
             finals.add(0)          # the empty pattern occurs in (and ends) every word
@@ -297,7 +299,7 @@ class Runner:
         ctx = self.ctx
         prepared, reqs = [], []
         for c in cases:
-            sy = enc.SymMap(c.sigma, extra=c.kw.get("s", ""))
+            sy = enc.SymMap(c.sigma, extra=c.kw.get("s", "") + "".join(c.kw.get("pats", ())))
             r = outcome(c.call)
             K = word_bound(c.sigma, ctx.tier)
             info = {"case": c, "sy": sy, "r": r, "K": K, "slots": {}}
@@ -626,11 +628,65 @@ def known_finding_reproducer(ctx):
                            "kwargs": repr(dict(pats=frozenset({"", "aa"}), contains=True, must_be_suffix=True))})
 
 
+FOREIGN_REPRO = [("a", ("bb", "aa")), ("a", ("ba", "aa")), ("a", ("c", "bb", "aaa")), ("ab", ("cc", "ab", "a"))]
+
+
+def foreign_symbol_reproducer(ctx):
+    """from_substrings (not must_be_suffix) with a pattern that has a symbol outside the alphabet (open finding):
+    the goto loop never visits the nodes behind that symbol, `end_state = len(transitions)` collides with a label."""
+    for k in ctx.known:
+        if k["id"] != "substrings_pattern_symbol_outside_alphabet":
+            continue
+        k["_match"] = lambda rp: rp.get("kind") == "from_substrings" and rp.get("foreign_symbol")
+        witness = None
+        for sigma, pats in FOREIGN_REPRO:
+            for contains in (True, False):
+                r = outcome(lambda: DFA.from_substrings(set(sigma), set(pats), contains=contains))
+                if r[0] == "err":
+                    witness = (sigma, pats, contains, "raises " + r[2])
+                    break
+                for n in range(7):
+                    for t in itertools.product(sigma, repeat=n):
+                        w = "".join(t)
+                        if r[1].accepts_input(w) != (any(p in w for p in pats) == contains):
+                            witness = (sigma, pats, contains, w)
+                            break
+                    if witness:
+                        break
+                if witness:
+                    break
+            if witness:
+                break
+        if witness and witness[3] is not None and not str(witness[3]).startswith("raises"):
+            # the mirror model follows the code into the defect: same table on the failing input
+            sigma, pats, contains, _ = witness
+            pset = set(pats)
+            d = DFA.from_substrings(set(sigma), pset, contains=contains)
+            sy = enc.SymMap(sigma, extra="".join(pats))
+            timpl = enc.enc_dfa(d, lambda q: q, sy)
+            ap = [list(range(sy.n)), [sy.word(p) for p in pset], contains, False]
+            ans = ctx.driver.batch([(15, OP_AC, enc.tree([ap, [timpl]]))])[0]
+            mirror = enc.dec_res(ans[0])
+            same = mirror[0] == "ok" and enc.tree(canon_dfa_tree(mirror[1])) == enc.tree(timpl)
+            ctx.tally("known_foreign_symbol_defect_mirror_table_" + ("identical" if same else "differs"))
+        if k["status"] == "open":
+            if witness:
+                ctx.tally("known_foreign_symbol_defect_reproduced")
+                ctx.report_known(k)
+            else:
+                ctx.notes.append("known finding substrings_pattern_symbol_outside_alphabet no longer reproduces")
+        elif witness:
+            ctx.violation("fixed finding substrings_pattern_symbol_outside_alphabet reproduces again: %r" % (witness,),
+                          {"kind": "from_substrings", "sigma": witness[0], "foreign_symbol": True,
+                           "kwargs": repr(dict(pats=frozenset(witness[1]), contains=witness[2], must_be_suffix=False))})
+
+
 def run(ctx):
     ctx.rule = RULE
     rng = ctx.rng
     R = Runner(ctx)
     known_finding_reproducer(ctx)
+    foreign_symbol_reproducer(ctx)
     thorough = ctx.tier == "thorough"
     cases = []
     for sigma in ("a", "ab", "abc"):
@@ -651,6 +707,19 @@ def run(ctx):
         for c in (True, False):
             for m in (False, True):
                 cases.append(Case("from_substrings", sigma, pats=pats, contains=c, must_be_suffix=m))
+    # pattern sets with a symbol outside the alphabet: must_be_suffix only (the theorem C15_from_substrings_suffix_lang
+    # needs no hypothesis on the patterns; the other mode is the open finding substrings_pattern_symbol_outside_alphabet)
+    foreign_open = any(k["id"] == "substrings_pattern_symbol_outside_alphabet" and k["status"] == "open" for k in ctx.known)
+    for i in range(ctx.n(40, 600)):
+        sigma = rng.choice(["a", "ab", "ab"])
+        pats = set(rand_pattern_set(rng, sigma, 3))
+        for _ in range(rng.randint(1, 2)):
+            base = rng.choice(sorted(pats))
+            j = rng.randint(0, len(base))
+            pats.add(base[:j] + rng.choice("yz") + base[j:][:2])
+        for c in (True, False):
+            for m in ((True,) if foreign_open else (True, False)):
+                cases.append(Case("from_substrings", sigma, pats=frozenset(pats), contains=c, must_be_suffix=m))
     # from_finite_language
     for sigma in ("a", "ab"):
         for ap in (True, False):
@@ -687,6 +756,7 @@ def run(ctx):
 
 def replay(ctx, case):
     c = Case(case["kind"], case["sigma"], **load_def(case["kwargs"]))
+    foreign_symbol_reproducer(ctx)
     r = outcome(c.call)
     print("call: DFA.%s alphabet=%r kwargs=%s" % (c.kind, c.sigma, c.kw))
     if r[0] == "ok":
